@@ -4,11 +4,16 @@
 package main
 
 import (
+	"encoding/json"
 	"fmt"
+	"hash/crc32"
 	"net"
+	"os"
+	"path/filepath"
 	"sort"
 	"strconv"
 	"strings"
+	"time"
 
 	"bfeverif/harness/internal/vh"
 	"github.com/bfenetworks/bfe/bfe_balance"
@@ -181,10 +186,23 @@ func configuredKey(b *backend.BfeBackend) string { return b.Addr + ":" + strconv
 
 func genBack(r *vh.Rand) bconf {
 	w := r.Range(1, 3)
-	if r.Chance(1, 8) {
+	switch r.Intn(40) {
+	case 0, 1, 2, 3, 4:
 		w = 0
+	case 5:
+		w = -1
+	case 6:
+		w = 12 // large, but one full smooth-WRR cycle still fits into probesPerKey calls
 	}
-	return bconf{name: "n" + strconv.Itoa(r.Intn(10)), addr: genAddr(r), port: 80 + r.Intn(2), weight: w}
+	port := 80 + r.Intn(2)
+	if r.Chance(1, 30) {
+		port = []int{0, 65535, 8}[r.Intn(3)] // 8: "a0:8" is a prefix of "a0:80"
+	}
+	name := "n" + strconv.Itoa(r.Intn(10))
+	if r.Chance(1, 25) {
+		name = r.Pick("", "N-1", "n.x", "n0") // empty / upper case / dots / same name on another address
+	}
+	return bconf{name: name, addr: genAddr(r), port: port, weight: w}
 }
 
 func genSubT(r *vh.Rand, name string) subT {
@@ -371,6 +389,106 @@ func genEvents(r *vh.Rand, t []clT) []event {
 	return ev
 }
 
+func findT(t []clT, cn, sn string) (subT, bool) {
+	for _, c := range t {
+		if c.name == cn {
+			for _, s := range c.subs {
+				if s.name == sn {
+					return s, true
+				}
+			}
+		}
+	}
+	return subT{}, false
+}
+
+func hasT(t []clT, cn string) bool {
+	for _, c := range t {
+		if c.name == cn {
+			return true
+		}
+	}
+	return false
+}
+
+// tableFor builds a cluster table for gslb conf g taking each sub-cluster's entry from `first` if it has one, else from `second`.
+func tableFor(g []clG, first, second []clT) []clT {
+	var out []clT
+	for _, c := range g {
+		if !hasT(first, c.name) && !hasT(second, c.name) {
+			continue
+		}
+		ct := clT{name: c.name}
+		for _, s := range c.subs {
+			if e, ok := findT(first, c.name, s.name); ok {
+				ct.subs = append(ct.subs, e)
+			} else if e, ok := findT(second, c.name, s.name); ok {
+				ct.subs = append(ct.subs, e)
+			}
+		}
+		out = append(out, ct)
+	}
+	return out
+}
+
+func cloneG(g []clG) []clG {
+	o := make([]clG, len(g))
+	for i, c := range g {
+		o[i] = clG{c.name, append([]subG(nil), c.subs...)}
+	}
+	return o
+}
+
+func cloneT(t []clT) []clT {
+	o := make([]clT, len(t))
+	for i, c := range t {
+		o[i] = clT{name: c.name}
+		for _, s := range c.subs {
+			o[i].subs = append(o[i].subs, subT{s.name, append([]bconf(nil), s.backs...)})
+		}
+	}
+	return o
+}
+
+// rename a sub-cluster keeping weight and backends / move one backend to a sibling sub-cluster
+func restructure(r *vh.Rand, g []clG, t []clT) {
+	if len(g) == 0 {
+		return
+	}
+	c := &g[r.Intn(len(g))]
+	var ct *clT
+	for i := range t {
+		if t[i].name == c.name {
+			ct = &t[i]
+		}
+	}
+	if ct == nil || len(c.subs) == 0 {
+		return
+	}
+	if r.Bool() {
+		i := r.Intn(len(c.subs))
+		n := r.Pick("s0", "s4", "s6", "s9", "S1")
+		if hasSubG(*c, n) {
+			return
+		}
+		old := c.subs[i].name
+		c.subs[i].name = n
+		for j := range ct.subs {
+			if ct.subs[j].name == old {
+				ct.subs[j].name = n
+			}
+		}
+	} else if len(ct.subs) >= 2 {
+		a, b := r.Intn(len(ct.subs)), r.Intn(len(ct.subs))
+		if a != b && len(ct.subs[a].backs) >= 2 {
+			k := r.Intn(len(ct.subs[a].backs))
+			mv := ct.subs[a].backs[k]
+			ct.subs[a].backs = append(append([]bconf(nil), ct.subs[a].backs[:k]...), ct.subs[a].backs[k+1:]...)
+			ct.subs[b].backs = append(append([]bconf(nil), ct.subs[b].backs...), mv)
+		}
+	}
+}
+
 func gen(r0 *vh.Rand) string {
 	if own == nil {
 		own = vh.NewRand(r0.U64() ^ (r0.U64() << 1))
@@ -380,11 +498,33 @@ func gen(r0 *vh.Rand) string {
 	var g []clG
 	var t []clT
 	var out []string
+	files := r.Chance(1, 10) // whole history through the file loaders (more often in the thorough tier)
+	if vh.Thorough {
+		files = r.Chance(1, 3)
+	}
 	for i := 0; i < n; i++ {
-		g, t = mutate(r, g, t, i == 0)
+		ng, nt := mutate(r, cloneG(g), cloneT(t), i == 0)
+		if i > 0 {
+			switch r.Intn(12) {
+			case 0, 1: // the very same configuration again
+				ng, nt = cloneG(g), cloneT(t)
+			case 2, 3: // cluster table changes only
+				ng, nt = cloneG(g), tableFor(g, nt, t)
+			case 4, 5: // gslb changes only (new sub-clusters get an entry, the existing entries stay)
+				nt = tableFor(ng, t, nt)
+			case 6:
+				restructure(r, ng, nt)
+			}
+		}
+		g, t = ng, nt
 		st := step{kind: "L", g: g, t: t, ev: genEvents(r, t)}
 		if i == 0 && !r.Chance(1, 10) {
 			st.kind = "I"
+		}
+		if files || r.Chance(1, 25) {
+			st.kind += "F"
+		} else if st.kind == "L" && r.Chance(1, 6) {
+			st.kind = "LS" // the caller reuses / overwrites its conf structs after the call
 		}
 		out = append(out, st.String())
 	}
@@ -410,7 +550,7 @@ func closed(b *backend.BfeBackend) bool {
 }
 
 func showObj(b *backend.BfeBackend, weight int) string {
-	return fmt.Sprintf("%s,%s,%d,%d,%s,%d,%d,%s", b.Name, b.Addr, b.Port, weight, b01(b.Avail()), b.FailNum(), b.ConnNum(), b01(closed(b)))
+	return fmt.Sprintf("%s,%s,%d,%d,%s,%d,%d,%s,%s", b.Name, b.Addr, b.Port, weight, b01(b.Avail()), b.FailNum(), b.ConnNum(), b01(closed(b)), b01(b.GetRestart()))
 }
 
 func dash(s string) string {
@@ -420,10 +560,13 @@ func dash(s string) string {
 	return s
 }
 
+func t0ver(t cluster_table_conf.ClusterTableConf) *string { return t.Version }
+
 type world struct {
-	t      *bfe_balance.BalTable
-	seen   map[*backend.BfeBackend]int // last known weight
-	order  []*backend.BfeBackend
+	ver [3]string // versions of the configuration last applied
+	t     *bfe_balance.BalTable
+	seen  map[*backend.BfeBackend]int // last known weight
+	order []*backend.BfeBackend
 }
 
 func (w *world) listing() (string, string) {
@@ -489,7 +632,7 @@ func probeKeys(total int) []net.IP {
 	return keys
 }
 
-const probesPerKey = 20 // >= one full smooth-WRR cycle of a sub-cluster (<= 6 backends of weight <= 3)
+const probesPerKey = 40 // >= one full smooth-WRR cycle of a sub-cluster (sum of weights / gcd <= 12 + 7*3)
 
 // probes enumerates what Balance can return: for every cluster, for client addresses covering every residue of the
 // sub-cluster hash, one full round-robin cycle.  Result: sorted set of cluster,sub,addr,port,closed.
@@ -549,7 +692,7 @@ func probes(t *bfe_balance.BalTable) string {
 func (w *world) freshProbes(kind string, g gslb_conf.GslbConf, t cluster_table_conf.ClusterTableConf) string {
 	return vh.Safe(func() string {
 		f := bfe_balance.NewBalTable(nil)
-		if kind == "I" {
+		if kind == "I" || kind == "IF" {
 			f.VerifC09Init(g, t) // Init keeps duplicate Addr:Port entries, a reload merges them
 		} else {
 			f.BalTableReload(g, t)
@@ -623,7 +766,10 @@ func mkConfs(st step) (gslb_conf.GslbConf, cluster_table_conf.ClusterTableConf) 
 		}
 		cs[c.name] = m
 	}
-	host, ts, ver := "verif", "20260101000000", "v"
+	// version strings are a function of the configuration text: the same configuration carries the same version, two
+	// different configurations share one now and then (a reload must not be skipped because a version is unchanged)
+	h := crc32.ChecksumIEEE([]byte(st.String()))
+	host, ts, ver := "verif", fmt.Sprintf("202601010000%02d", h%5), "v"+strconv.Itoa(int(h>>8)%3)
 	all := cluster_table_conf.AllClusterBackend{}
 	for _, c := range st.t {
 		cb := cluster_table_conf.ClusterBackend{}
@@ -640,7 +786,49 @@ func mkConfs(st step) (gslb_conf.GslbConf, cluster_table_conf.ClusterTableConf) 
 	return gslb_conf.GslbConf{Clusters: &cs, Hostname: &host, Ts: &ts}, cluster_table_conf.ClusterTableConf{Version: &ver, Config: &all}
 }
 
+// scribble overwrites everything reachable from the conf values after the call returned: bfe must have copied
+// what it keeps.
+func scribble(g gslb_conf.GslbConf, t cluster_table_conf.ClusterTableConf) {
+	for _, c := range *g.Clusters {
+		for k := range c {
+			c[k] = 999
+		}
+	}
+	for _, cb := range *t.Config {
+		for _, l := range cb {
+			for _, b := range l {
+				*b.Name, *b.Addr, *b.Port, *b.Weight = "ZZ", "zz", 1, 77
+			}
+		}
+	}
+}
+
+// writeFiles stores the step's configuration as gslb.conf / cluster_table.conf JSON files for the real loaders.
+func writeFiles(g gslb_conf.GslbConf, t cluster_table_conf.ClusterTableConf) (dir, gf, tf string, err error) {
+	dir, err = os.MkdirTemp("/var/tmp", "c09files-")
+	if err != nil {
+		return
+	}
+	gf, tf = filepath.Join(dir, "gslb.data"), filepath.Join(dir, "cluster_table.data")
+	gb, e1 := json.Marshal(g)
+	tb, e2 := json.Marshal(t)
+	if e1 != nil || e2 != nil {
+		err = fmt.Errorf("marshal")
+		return
+	}
+	if err = os.WriteFile(gf, gb, 0644); err != nil {
+		return
+	}
+	err = os.WriteFile(tf, tb, 0644)
+	return
+}
+
 func exec(op string) string {
+	// a reload that returns with a lock still held would block the listing for ever: watchdog
+	return vh.SafeTimeout(60*time.Second, func() string { return exec1(op) })
+}
+
+func exec1(op string) string {
 	w := &world{t: bfe_balance.NewBalTable(nil), seen: map[*backend.BfeBackend]int{}}
 	var out []string
 	for _, s := range strings.Fields(op) {
@@ -649,15 +837,38 @@ func exec(op string) string {
 			return "bad-op"
 		}
 		g, t := mkConfs(st)
+		isInit := st.kind == "I" || st.kind == "IF"
+		isFile := st.kind == "IF" || st.kind == "LF"
 		status := vh.Safe(func() string {
 			var err error
-			if st.kind == "I" {
+			switch {
+			case isFile:
+				dir, gf, tf, e := writeFiles(g, t)
+				if dir != "" {
+					defer os.RemoveAll(dir)
+				}
+				if e != nil {
+					return "PANIC:cannot write conf files"
+				}
+				gc, bc, lerr := w.t.BalTableConfLoad(gf, tf)
+				if lerr != nil {
+					return "rejected"
+				}
+				if isInit {
+					err = w.t.Init(gf, tf) // the real entry point of the server start
+				} else {
+					err = w.t.BalTableReload(gc, bc) // what bfe_server.gslbDataConfReload does
+				}
+			case isInit:
 				err = w.t.VerifC09Init(g, t)
-			} else {
+			default:
 				err = w.t.BalTableReload(g, t)
 			}
+			if st.kind == "LS" {
+				scribble(g, t)
+			}
 			if err != nil {
-				if st.kind == "I" && strings.Contains(err.Error(), "gslbInit") {
+				if isInit && strings.Contains(err.Error(), "gslbInit") {
 					return "initfail"
 				}
 				return "err"
@@ -671,12 +882,24 @@ func exec(op string) string {
 			}
 			return status
 		}
-		if status == "initfail" {
-			out = append(out, status) // Init stopped before backendInit: the server would not start
+		if status == "initfail" || (status == "rejected" && isInit) {
+			out = append(out, status) // Init stopped: the server would not start
 			break
 		}
+		// contract of the reload: GetVersions reports the configuration in use (unchanged by a rejected file)
+		if status == "ok" || status == "err" {
+			w.ver = [3]string{*t0ver(t), *g.Ts, *g.Hostname}
+		}
+		if v := w.t.GetVersions(); w.ver != [3]string{} && (v.ClusterTableConfVer != w.ver[0] || v.GslbConfTimeStamp != w.ver[1] || v.GslbConfSrc != w.ver[2]) {
+			status = "vermismatch"
+		}
 		tbl, gr := w.listing()
-		out = append(out, status+"#"+tbl+"#"+gr+"#"+probes(w.t)+"#"+w.freshProbes(st.kind, g, t))
+		fresh := "-"
+		if status != "rejected" {
+			g2, t2 := mkConfs(st)
+			fresh = w.freshProbes(st.kind, g2, t2)
+		}
+		out = append(out, status+"#"+tbl+"#"+gr+"#"+probes(w.t)+"#"+fresh)
 		for _, e := range st.ev {
 			w.apply(e)
 		}
